@@ -122,7 +122,7 @@ CsTight == <<WCs("par", TRUE, "min", Bodies[26])[1], WCs("par", TRUE, "min", Bod
 CsBq == Cat2(LAMBDA e, i : WCs("bq", FALSE, e, Bodies[i])[1], <<"min", "max">>, BqIdx)
 Ars == [i \in DOMAIN Exprs |-> WAr(Exprs[i])[1]]
 Plain1 == CsPar \o CsTight \o CsBq \o Ars
-Quoted == [i \in DOMAIN Plain1 |-> DQ(<<Plain1[i]>>)[1]]
+Quoted == LET P1 == Plain1 IN [i \in DOMAIN P1 |-> DQ(<<P1[i]>>)[1]]
 (* inside the words of parameter expansions and next to text in double quotes *)
 Nested ==
      Cat2(LAMBDA c, i : WSw("y", c, "-", <<CsPar[i]>>)[1], <<FALSE, TRUE>>, <<1, 6, 14, 18>>)
@@ -158,8 +158,8 @@ StateTable == <<
   [x |-> Val("1+2"),   y |-> Val(""),   pos |-> <<>>,           ifs |-> Val("+"),     nounset |-> FALSE, st |-> "0"] >>
 
 ---------------------------------------------------------------------------
-VARIABLES fam, ws
-vars == <<fam, ws>>
+VARIABLES vfam, vws
+vars == <<vfam, vws>>
 
 RECURSIVE Hash(_, _)
 Hash(q, i) == IF i > Len(q) THEN 7 ELSE (q[i] * 31 + Hash(q, i + 1) * 17) % 10007
@@ -172,28 +172,28 @@ SelectedWord(q) ==
                 /\ (IsNewIdx(q[1]) # IsNewIdx(q[2])) /\ (IsNewIdx(q[2]) # IsNewIdx(q[3]))
                 /\ (Hash(q, 1) + Seed) % TripleSlice = 0
 
-Init == fam \in {"word", "raw"} /\ ws = <<>>
+Init == vfam \in {"word", "raw"} /\ vws = <<>>
 Next ==
-  /\ UNCHANGED fam
-  /\ \/ /\ fam = "word" /\ Len(ws) < MaxLen
+  /\ UNCHANGED vfam
+  /\ \/ /\ vfam = "word" /\ Len(vws) < MaxLen
         /\ \E k \in 1..NU :
-             /\ ws' = Append(ws, k)
-             /\ (Len(ws') = 2) => HasNew(ws')
-             /\ (Len(ws') = 2 /\ MaxLen = 2) => SelectedWord(ws')
-             /\ (Len(ws') = 3) => SelectedWord(ws')
-     \/ /\ fam = "raw" /\ Len(ws) < RawMax
-        /\ \E k \in 1..NRaw : ws' = Append(ws, k)
+             /\ vws' = Append(vws, k)
+             /\ (Len(vws') = 2) => HasNew(vws')
+             /\ (Len(vws') = 2 /\ MaxLen = 2) => SelectedWord(vws')
+             /\ (Len(vws') = 3) => SelectedWord(vws')
+     \/ /\ vfam = "raw" /\ Len(vws) < RawMax
+        /\ \E k \in 1..NRaw : vws' = Append(vws, k)
 Spec == Init /\ [][Next]_vars
 
-Selected == IF fam = "raw" THEN ws # <<>> ELSE (ws # <<>> /\ HasNew(ws) /\ SelectedWord(ws))
+Selected == IF vfam = "raw" THEN vws # <<>> ELSE (vws # <<>> /\ HasNew(vws) /\ SelectedWord(vws))
 
-RawUnit == WBqRaw([i \in DOMAIN ws |-> RawTok[ws[i]]])
-Word == IF fam = "raw" THEN RawUnit ELSE [i \in DOMAIN ws |-> U[ws[i]]]
+RawUnit == WBqRaw([i \in DOMAIN vws |-> RawTok[vws[i]]])
+Word == IF vfam = "raw" THEN RawUnit ELSE [i \in DOMAIN vws |-> U[vws[i]]]
 (* the raw family also inside double quotes *)
-Words == IF fam = "raw" THEN <<RawUnit, DQ(RawUnit)>> ELSE <<Word>>
+Words == IF vfam = "raw" THEN <<RawUnit, DQ(RawUnit)>> ELSE <<Word>>
 
-CtxFor(w) == IF fam = "raw" THEN {1, 3, 10} ELSE DOMAIN CtxSeq
-StatesFor(w) == IF fam = "raw" THEN {1} ELSE DOMAIN StateTable
+CtxFor(w) == IF vfam = "raw" THEN {1, 3, 10} ELSE DOMAIN CtxSeq
+StatesFor(w) == IF vfam = "raw" THEN {1} ELSE DOMAIN StateTable
 
 Cases(w) ==
   { <<c, s, Outcome(CtxSeq[c], w, StateTable[s])>> : c \in CtxFor(w), s \in StatesFor(w) }
@@ -201,13 +201,13 @@ Cases(w) ==
 Line(w) ==
   LET R == Cases(w)
       K == { r \in R : r[3].k # "skip" }
-  IN [fam |-> fam, w |-> w, t |-> Text("arg", w), th |-> Text("here", w),
+  IN [fam |-> vfam, w |-> w, t |-> Text("arg", w), th |-> Text("here", w),
       o |-> SeqOfSet(K), ns |-> Cardinality(R) - Cardinality(K)]
 
 Emit ==
   DoEmit =>
-    IF ws = <<>>
-    THEN (fam = "word" => PrintT(ToJson([hdr |-> TRUE, ctx |-> CtxSeq, states |-> StateTable, files |-> Files])))
+    IF vws = <<>>
+    THEN (vfam = "word" => PrintT(ToJson([hdr |-> TRUE, ctx |-> CtxSeq, states |-> StateTable, files |-> Files])))
     ELSE Selected => \A i \in DOMAIN Words : PrintT(ToJson(Line(Words[i])))
 
 ---------------------------------------------------------------------------
@@ -229,7 +229,7 @@ LawTrailingNewlines(u) ==
       LET o == Fields(DQ(<<u>>), st)
           o1 == Fields(DQ(<<[u EXCEPT !.b = u.b \o <<Echo(<<>>), Echo(<<>>)>>]>>), st)
           o2 == Fields(DQ(<<[u EXCEPT !.b = u.b \o <<Put(<<SQ(" ")>>), Echo(<<>>)>>]>>), st)
-          done == \E i \in DOMAIN u.b : u.b[i].c = "exit"
+          done == RunBody(u.b, st).done            \* left by `exit` or an expansion error
       IN (OkF(o) /\ OkF(o1) /\ OkF(o2) /\ ~done /\ u.b # <<>>) =>
            /\ o1.f = o.f
            /\ LET f == o2.f[1] IN Len(f) >= 1 /\ SubSeq(f, Len(f), Len(f)) = " "
@@ -266,7 +266,7 @@ LawArith(u) ==
     \A st \in States :
       LET o == Fields(<<u>>, st)
           q == Fields(DQ(<<u>>), st)
-          p == Fields(<<u>> \o L(",") \o P("x"), st)
+          p == Fields(<<u>> \o L(",") \o DQ(P("x")), st)
       IN /\ (OkF(o) /\ OkF(q)) =>
               /\ o.x = q.x /\ o.y = q.y
               /\ Len(q.f) = 1 /\ \A i \in 1..Len(q.f[1]) : SubSeq(q.f[1], i, i) \in Digits \cup {"-"}
@@ -308,14 +308,14 @@ LawConservative ==
           b == ExpandWith(w, st, FALSE)
       IN OkF(a) => (b.k = "ok" /\ a.f = b.f /\ a.x = b.x /\ a.y = b.y)
 
-OneNew == fam = "word" /\ Len(ws) = 1 /\ IsNewIdx(ws[1])
-AtRoot == ws = <<>> /\ fam = "word"
-InvQuoted == OneNew => LawQuotedOneField(U[ws[1]])
-InvNewlines == OneNew => LawTrailingNewlines(U[ws[1]])
-InvContained == OneNew => LawContained(U[ws[1]])
-InvBackquote == OneNew => LawBackquote(U[ws[1]])
-InvStatus == OneNew => LawLastStatus(U[ws[1]])
-InvArith == OneNew => LawArith(U[ws[1]])
+OneNew == vfam = "word" /\ Len(vws) = 1 /\ IsNewIdx(vws[1])
+AtRoot == vws = <<>> /\ vfam = "word"
+InvQuoted == OneNew => LawQuotedOneField(U[vws[1]])
+InvNewlines == OneNew => LawTrailingNewlines(U[vws[1]])
+InvContained == OneNew => LawContained(U[vws[1]])
+InvBackquote == OneNew => LawBackquote(U[vws[1]])
+InvStatus == OneNew => LawLastStatus(U[vws[1]])
+InvArith == OneNew => LawArith(U[vws[1]])
 InvPinned == AtRoot => LawPinned
 InvSameValue == AtRoot => LawSameValue
 InvConservative == AtRoot => LawConservative
